@@ -55,6 +55,11 @@ def tasks(tier, seed):
             for M in ([2, 3] if quick else [2, 3, 4]):
                 for rt in (RES_TYPES if kind in ('generic_implicit', 'imex_1st_order') or not quick else RES_TYPES[:2]):
                     T.append(('defect', kind, M, rt, quad == 'LOBATTO', 1, quad))
+    # the residual a COARSE level reports (the mass-matrix sweeper treats the start value differently there; the other sweepers must not care)
+    for kind in ['imex_1st_order_mass', 'generic_implicit', 'imex_1st_order']:
+        for M in ([2] if quick else [2, 3]):
+            for rt in RES_TYPES:
+                T.append(('defect', kind, M, rt, True, 1, 'RADAU-RIGHT', 1))
     T.append(('stoprule',))
     from harness import c07
 
@@ -100,8 +105,8 @@ def znorm(rows):
     return zmax([zabs(x) for row in rows for x in row])
 
 
-def defect_case(rep, kind, M, rt, with_tau, n, quad='RADAU-RIGHT'):
-    name = f'defect/{kind}/M{M}/{rt}/tau{int(with_tau)}/n{n}' + ('' if quad == 'RADAU-RIGHT' else f'/{quad}')
+def defect_case(rep, kind, M, rt, with_tau, n, quad='RADAU-RIGHT', lvl=0):
+    name = f'defect/{kind}/M{M}/{rt}/tau{int(with_tau)}/n{n}' + ('' if quad == 'RADAU-RIGHT' else f'/{quad}') + (f'/level{lvl}' if lvl else '')
     coef = c02.sym_coefs(kind, n)
     mass = [SymReal(z3.Real('mass_0'))] if kind == 'imex_1st_order_mass' else None
     dtv = z3.Real('dt')
@@ -115,7 +120,7 @@ def defect_case(rep, kind, M, rt, with_tau, n, quad='RADAU-RIGHT'):
             pc, pp = c02.float_problem_for(kind, coef_, mass_)
         else:
             pc, pp = c02.problem_for(kind, coef_, mass_)
-        L = cm.make_level(pc, pp, c02.SWEEPERS[kind], c02.sweeper_params(kind, M, 'LEGENDRE', quad, qd, False), dt, residual_type=rt)
+        L = cm.make_level(pc, pp, c02.SWEEPERS[kind], c02.sweeper_params(kind, M, 'LEGENDRE', quad, qd, False), dt, residual_type=rt, level_index=lvl)
         return L
 
     def fn(c):
@@ -136,7 +141,7 @@ def defect_case(rep, kind, M, rt, with_tau, n, quad='RADAU-RIGHT'):
         r = p.result
         V = r['V']
         zc = coef
-        d = ss.spec_defect(kind, r['Q'], zc, dtv, V['u0'], V['U'], V['tau'], mass)
+        d = ss.spec_defect(kind, r['Q'], zc, dtv, V['u0'], V['U'], V['tau'], mass, coarse=bool(lvl))
         if rt == 'full_abs':
             spec = znorm(d)
         elif rt == 'last_abs':
@@ -174,10 +179,10 @@ def defect_case(rep, kind, M, rt, with_tau, n, quad='RADAU-RIGHT'):
         allv = cm.all_vars(V) + [dtv] + [x.t for v in coef.values() for row in v for x in row] + ([mass[0].t] if mass else [])
         if res == 'sat':
             env = cm.model_env(model, allv)
-            defect_triage(rep, kind, M, rt, with_tau, n, qd, env, name, quad)
+            defect_triage(rep, kind, M, rt, with_tau, n, qd, env, name, quad, lvl)
         if with_tau and n == 1:
             # sensitivity: a specification without tau on the last node must be refuted
-            d2 = ss.spec_defect(kind, r['Q'], zc, dtv, V['u0'], V['U'], V['tau'][:-1] + [[z3.RealVal(0)] * n], mass)
+            d2 = ss.spec_defect(kind, r['Q'], zc, dtv, V['u0'], V['U'], V['tau'][:-1] + [[z3.RealVal(0)] * n], mass, coarse=bool(lvl))
             bad = znorm(d2) if rt.startswith('full') else znorm(d2[-1:])
             if rt.endswith('rel'):
                 bad = bad / znorm([V['u0']])
@@ -189,7 +194,7 @@ def defect_case(rep, kind, M, rt, with_tau, n, quad='RADAU-RIGHT'):
         if mass:
             env['mass_0'] = rng.uniform(0.5, 2)
         try:
-            obs, exp = defect_float(kind, M, rt, with_tau, n, qd, env, quad)
+            obs, exp = defect_float(kind, M, rt, with_tau, n, qd, env, quad, lvl)
             got = evalf(r['res'], env)
             rep.translator += 1
             if not cm.rel_close(got, obs, 1e-7):
@@ -199,12 +204,12 @@ def defect_case(rep, kind, M, rt, with_tau, n, quad='RADAU-RIGHT'):
     rep.sample({'case': name, 'free_variables': 'u0, U, tau, dt, coefficients'}, limit=4)
 
 
-def defect_float(kind, M, rt, with_tau, n, qd, env, quad='RADAU-RIGHT'):
+def defect_float(kind, M, rt, with_tau, n, qd, env, quad='RADAU-RIGHT', lvl=0):
     """real float compute_residual vs numpy defect norm"""
     coefF = {nm: np.array([[env[f'{nm}_{i}{j}'] for j in range(n)] for i in range(n)]) for nm in c02.COEF_NAMES[kind]}
     mass = [env['mass_0']] if kind == 'imex_1st_order_mass' else None
     pc, pp = c02.float_problem_for(kind, coefF, mass)
-    L = cm.make_level(pc, pp, c02.SWEEPERS[kind], c02.sweeper_params(kind, M, 'LEGENDRE', quad, qd, False), env['dt'], residual_type=rt)
+    L = cm.make_level(pc, pp, c02.SWEEPERS[kind], c02.sweeper_params(kind, M, 'LEGENDRE', quad, qd, False), env['dt'], residual_type=rt, level_index=lvl)
     P = L.prob
     u0 = np.array([env[f'u0_{i}'] for i in range(n)])
     U = np.array([[env[f'U{m}_{i}'] for i in range(n)] for m in range(1, M + 1)])
@@ -224,24 +229,24 @@ def defect_float(kind, M, rt, with_tau, n, qd, env, quad='RADAU-RIGHT'):
     F = sum(coefF.values())
     Q = L.sweep.coll.Qmat[1:, 1:]
     Mm = np.eye(n) if mass is None else np.diag(mass)
-    d = (Mm @ u0)[None, :] + env['dt'] * Q @ (U @ F.T) + tau - U @ Mm.T
+    d = (u0 if lvl else Mm @ u0)[None, :] + env['dt'] * Q @ (U @ F.T) + tau - U @ Mm.T
     nd = np.abs(d).max() if rt.startswith('full') else np.abs(d[-1]).max()
     if rt.endswith('rel'):
         nd = nd / np.abs(u0).max()
     return obs, float(nd)
 
 
-def defect_triage(rep, kind, M, rt, with_tau, n, qd, env, name, quad='RADAU-RIGHT'):
+def defect_triage(rep, kind, M, rt, with_tau, n, qd, env, name, quad='RADAU-RIGHT', lvl=0):
     rep.replayed += 1
     try:
-        obs, exp = defect_float(kind, M, rt, with_tau, n, qd, env, quad)
+        obs, exp = defect_float(kind, M, rt, with_tau, n, qd, env, quad, lvl)
     except Exception as e:
         rep.unreproduced(name, f'{type(e).__name__}: {e}')
         return
     if abs(obs - exp) > 1e-8 * (1 + abs(exp)):
-        clause = 'residual-type-ignored' if kind == 'imex_1st_order_mass' and rt != 'full_abs' else 'residual-is-defect'
+        clause = 'coarse-level-residual' if lvl else ('residual-type-ignored' if kind == 'imex_1st_order_mass' and rt != 'full_abs' else 'residual-is-defect')
         rep.violation(f'{PID}/{kind}/{clause}', f'{name}: reported residual {obs:.6e} but the {rt} norm of the defect is {exp:.6e}',
-                      {'task': ['defect', kind, M, rt, with_tau, n, quad], 'qd': list(qd), 'env': env, 'observed': obs, 'expected': exp})
+                      {'task': ['defect', kind, M, rt, with_tau, n, quad, lvl], 'qd': list(qd), 'env': env, 'observed': obs, 'expected': exp})
     else:
         rep.unreproduced(name, {'env': env, 'observed': obs, 'expected': exp})
 
@@ -316,7 +321,7 @@ def replay(path):
     t = d['task']
     c02._load()
     if t[0] == 'defect':
-        obs, exp = defect_float(t[1], t[2], t[3], t[4], t[5], tuple(d['qd']), d['env'], t[6] if len(t) > 6 else 'RADAU-RIGHT')
+        obs, exp = defect_float(t[1], t[2], t[3], t[4], t[5], tuple(d['qd']), d['env'], t[6] if len(t) > 6 else 'RADAU-RIGHT', t[7] if len(t) > 7 else 0)
         print('observed', obs, 'expected', exp)
         bad = abs(obs - exp) > 1e-8 * (1 + abs(exp))
     elif isinstance(t[0], int) or t[0] is None or len(t) == 8:
